@@ -125,7 +125,7 @@ repeated letter of Table 159. -/
 theorem alpha_bijective (n : Nat) (h : 0 < n) :
     ∃ t, formatIntAlpha (n : Int) = .ok t ∧ alphaValue t = n := by
   refine ⟨alphaLoop n n [], ?_, ?_⟩
-  ·     simp [formatIntAlpha]; omega
+  · simp [formatIntAlpha]; omega
   · unfold alphaValue
     rw [alphaLoop_value n n [] (Nat.le_refl n)]
     rfl
@@ -397,6 +397,13 @@ theorem C17_nametree (t : Node) (hwf : wf true t = true) (key : Key) :
     simp [lookupName, this]
   | none =>
     rcases g.2 (not_mem_of_assoc_none ha) with h | ⟨h, _⟩ <;> simp [lookupName, h]
+
+/-- The in-order flattening of a conforming name tree is strictly ascending in the byte-string
+order (derived from the local conditions of `wf`: leaves ascending, Limits bounding, siblings
+separated) — so keys are unique and "the value associated with the key" is unambiguous. -/
+theorem C17_nametree_sorted (t : Node) (hwf : wf true t = true) :
+    List.Pairwise (fun x y => klt x y = true) ((flatten t).map (·.1)) :=
+  flatten_sorted true t hwf
 
 /-- `get_dest`: a string is looked up in the name tree, a name in the catalog's `Dests`
 dictionary; everything else is `PDFDestinationNotFound`. -/
